@@ -302,6 +302,63 @@ def run(ctx):
                 ok = False
         if ok:
             ctx.validated()
+    run_line_skeletons(ctx, jinja2)
+
+
+def lead_ok(s):
+    if s == "":
+        return True
+    r = s.lstrip(" \t\x0b")
+    return r != "" and not r[0].isspace()
+
+
+def run_line_skeletons(ctx, jinja2):
+    """the line-structured skeletons of C13_line_statement_equiv / C13_line_form_render: both forms must
+    render spec_lines (the texts, statement lines removed) on the real engine, and the model must agree"""
+    texts = ["", "a\n", "a b\n  c\n", "  x\n", "<p>\n", "a\n\nb\n", "\n"]
+    inds = ["", " ", "\t ", "    ", "\x0b"]
+    finals = ["", "b", "  b\n", "b\n\nc", "x y\n", "}}%\n"]
+    jobs = []
+    for _ in range(ctx.size(1500, 15000)):
+        n = ctx.rng.randint(0, 4)
+        chs = []
+        for i in range(n):
+            T = ctx.rng.choice(texts)
+            if not lead_ok(T):
+                T = ""
+            chs.append((T, ctx.rng.choice(inds)))
+        F = ctx.rng.choice(finals)
+        keep = ctx.rng.random() < 0.5
+        if not keep and F == "":
+            keep = True
+        jobs.append((chs, F, keep))
+    cases = []
+    for chs, F, keep in jobs:
+        c = L.Cfg("line", True, True, keep=keep)
+        blk = "".join(T + i + "{% set x = 1 %}\n" for T, i in chs) + F
+        lin = "".join(T + i + "# set x = 1 \n" for T, i in chs) + F
+        want = "".join(T for T, _ in chs) + (F if keep else (F[:-1] if F.endswith("\n") else F))
+        cases.append((c, blk, lin, want))
+    mruns = L.model_runs(ctx, [(c, b) for c, b, _, _ in cases] + [(c, l) for c, _, l, _ in cases])
+    n = len(cases)
+    for i, (c, blk, lin, want) in enumerate(cases):
+        env = L.env_for(jinja2, c)
+        case = {"kind": "line-skeleton", "keep_trailing_newline": c.keep, "block_form": blk, "line_form": lin}
+        ctx.case(sample=case if len(blk) > 40 else None, key=("lsk", c.keep, blk))
+        ctx.count("line_skeleton")
+        ob = safe(jinja2, lambda: env.from_string(blk).render())
+        ol = safe(jinja2, lambda: env.from_string(lin).render())
+        if ob != "D " + want or ol != "D " + want:
+            ctx.reject(case, "spec_lines gives %r; block form renders %r, line form %r" % (want, ob, ol), "C13:line-skeleton:%r:%s" % (blk, c.keep))
+            continue
+        ok = True
+        for src, m in ((blk, mruns[i]), (lin, mruns[n + i])):
+            r = L.real_run(jinja2, env, src)
+            if m.canon() != r:
+                ctx.model_mismatch("K-lex tokeniter (line skeletons)", dict(case, src=src), repr(m.canon())[:300], repr(r)[:300], None)
+                ok = False
+        if ok:
+            ctx.validated()
 
 
 def replay(ctx, data):
@@ -311,7 +368,15 @@ def replay(ctx, data):
         print("replay: this file names a broken theorem/correspondence, not an input:", data.get("broken"))
         return run(ctx)
     kind = case.get("kind")
-    if kind in ("line-statement", "line-comment"):
+    if kind == "line-skeleton":
+        c = L.Cfg("line", True, True, keep=case["keep_trailing_newline"])
+        env = L.env_for(jinja2, c)
+        ob = safe(jinja2, lambda: env.from_string(case["block_form"]).render())
+        ol = safe(jinja2, lambda: env.from_string(case["line_form"]).render())
+        print("block form:", repr(case["block_form"]), "->", ob, "\nline form :", repr(case["line_form"]), "->", ol)
+        if ob != ol:
+            ctx.reject(case, "block form renders %r, line form %r" % (ob, ol), data.get("signature"))
+    elif kind in ("line-statement", "line-comment"):
         env = L.env_for(jinja2, L.Cfg("line", True, True))
         oa = safe(jinja2, lambda: env.from_string(case["block_form"]).render())
         ob = safe(jinja2, lambda: env.from_string(case["line_form"]).render())
